@@ -4052,7 +4052,12 @@ impl CanonicalizeContext {
 		// We essentially have 'terminator( mrow terminator)'
 		//   in other words, we have an extra mrow with one child due to the initial start -- remove it
 		let mut top_of_stack = parse_stack.pop().unwrap();
-		assert_eq!(parse_stack.len(), 0);
+		// a misjudged fence (e.g., '|' closed by ')') leaves rows below the top one: keep their children (in front) rather than asserting
+		while let Some(below) = parse_stack.pop() {
+			let mut children = below.mrow.children();
+			children.extend(top_of_stack.mrow.children());
+			top_of_stack.mrow.replace_children(children);
+		}
 	
 		let mut parsed_mrow = top_of_stack.mrow;
 		assert_eq!( name(&top_of_stack.mrow), "mrow");
